@@ -274,7 +274,7 @@ macro_rules! chain_row {
                                 // only a decrease may fail, and only for lack of remainders
                                 vcheck!(
                                     PRECS[to as usize] < PRECS[from as usize] && e.contains("OutOfRemainders"),
-                                    "C13/change_precision_failed",
+                                    if ctx.param == 10 { "C10/undocumented_change_precision_error" } else { "C13/change_precision_failed" },
                                     "change_precision {} -> {} failed with {}",
                                     PRECS[from as usize],
                                     PRECS[to as usize],
@@ -289,6 +289,9 @@ macro_rules! chain_row {
                     let tab = gen_tab(src, PRECS[sel as usize], sel, 8);
                     match coder.decode(&tab) {
                         Ok(s) => {
+                            if ctx.param == 10 {
+                                vcheck!(s < tab.n(), "C10/decoded_symbol_outside_support", "chain decode at P={} returned {} which is not a symbol of {}", PRECS[sel as usize], s, tab.render());
+                            }
                             vassume!(ctx, s < tab.n(), "foreign:C10/chain_symbol_outside_model");
                             note!(ctx, "decode -> {} with {}", s, tab.render());
                             steps.push(Step::Dec(s, tab));
@@ -302,10 +305,23 @@ macro_rules! chain_row {
                                 break;
                             }
                         }
-                        Err(DecErr::Other(e)) => vfail!("C13/decode_error", "decode_symbol -> {}", e),
+                        Err(DecErr::Other(e)) => {
+                            if ctx.param == 10 {
+                                vfail!("C10/undocumented_decoder_error", "chain decode_symbol -> {}", e)
+                            }
+                            vfail!("C13/decode_error", "decode_symbol -> {}", e)
+                        }
                     }
                 }
                 let _ = out_of_data;
+                if ctx.param == 10 {
+                    // C10 view of the same histories: totality and membership while the precision
+                    // changes between symbols; the restoring half belongs to C13
+                    if n_dec >= 2 && steps.iter().any(|s| matches!(s, Step::Change(..))) {
+                        ctx.nontrivial();
+                    }
+                    return Ok(());
+                }
                 if n_dec >= 2 {
                     ctx.nontrivial();
                 }
